@@ -9,6 +9,19 @@ TRUST = ("Trusted base: CPython's ast parser; the checker's own CFG / dominator 
          "method-name uniqueness. utype is never imported or executed. ")
 
 CLAIMS = {
+ "C01": dict(
+    text="Static mechanism completeness: in every registered converter and in the dispatchers a return of the (alias "
+         "of the) input is dominated by a positive type guard against the target type, all other returns are "
+         "constructions / delegated conversions / literals (R01a); every element, key and value stored by the element "
+         "parsers is a conversion result unless its definition carries a documented waiver (R01b); in Rule.parse every "
+         "path to the final return passes origin transform, element parser and validators loop under their guards, in "
+         "order, with results assigned back; early exits are the two accepted shortcuts (R01c); stores into the binding "
+         "results of the lookup strategies and parse_params are parse results (R01d).",
+    note="Undecided: that each converter's constructor yields a conforming value for every input (value-level), "
+         "_parse_decimal arithmetic, user-supplied converters.",
+    technique="return-provenance with dominating type-guard facts, typestate (RAW/PARSED) of container stores, "
+              "must-pass-through on the CFG of Rule.parse",
+    ref="DESIGN.md 3/C01"),
  "C04": dict(
     text="Static, all-paths: every converter / validator / class-held constructor call in the parse core is contained "
          "by a catch-all handler (locally or through every caller) that hands a ParseError-family error on (R04a); no "
